@@ -63,7 +63,7 @@ def b_rename_class(draw, d, prof):
 WRITE_OPS = WRITE_OPS + ['rename_class', 'rename_class']
 PROFILE = machine.Profile('c15', 'C15', ops=[(1, o) for o in WRITE_OPS],
                           oracles=[], nontrivial=lambda *a: False,
-                          defect_rate=1,
+                          defect_rate=4,
                           builders={'rename_class': b_rename_class})
 
 
@@ -229,7 +229,13 @@ def run_worker(ctx):
                 stats.count('generator fell back to a read (%s)'
                             % type(e).__name__)
                 valid = gen.read(data.draw, d, (1, 39))
-            req, labels = fuzz.mutate(data.draw, valid)
+            if data.draw(st.integers(0, 6)) == 0:
+                # the builders' own single-defect variants (unknown provider
+                # or class, missing inventory, stale generation ...) are
+                # inputs too: send some of them as they are
+                req, labels = valid, ['unmutated']
+            else:
+                req, labels = fuzz.mutate(data.draw, valid)
             cap.last = None
             try:
                 resp = machine.execute(svc, _decode_raw(req))
